@@ -8,7 +8,7 @@ from sa.effects import all_events
 from sa.terms import C, P, is_call, is_const, show
 from sa.walker import State, flatten_events
 
-from . import fn_site
+from . import flat, fn_site
 from .c08 import writer_model
 from .vs import hexconj
 
@@ -101,6 +101,22 @@ def run(ctx):
                                 loops_bad.append(ev2[1])
             if first is None:
                 continue
+            # R1b: a path that ends in failure must not have written at all, unless the failure is the
+            # write phase's own (open/write) - "written in a finally block after the body failed"
+            if p.kind == "raise":
+                fail_idx = None
+                for i, ev in enumerate(evs):
+                    if (ev[0] == "call" and ev[5][0] == "raise") or ev[0] == "raise":
+                        caught_later = any(e2[0] == "caught" for e2 in evs[i + 1 :]) and not (ev[0] == "call" and ev[5][1] == p.value.exc and ev[1] in p.value.chain)
+                        if not caught_later or (ev[0] == "call" and ev[1] in p.value.chain):
+                            fail_idx = i
+                            break
+                if fail_idx is not None and fail_idx < first:
+                    k = "written-after-failure"
+                    cur = classes.setdefault(k, [0, [evs[fail_idx]], evs[first][1]])
+                    cur[0] += 1
+                    n_writing += 1
+                    continue
             n_writing += 1
             handle = evs[first][5][1] if evs[first][0] == "call" and evs[first][5][0] == "ok" else None
             # end of the write phase: the with-exit following the handle's with-enter, or close()
@@ -139,13 +155,11 @@ def run(ctx):
         ctx.count("R1.paths", n_paths)
         for key, (n, offenders, osite) in sorted(classes.items()):
             ok = key == "ok"
-            ctx.ob(
-                "R1",
-                "write-phase|%s|%s" % (q, key),
-                osite.loc(),
-                "%s: on %d path(s) the target is opened for writing %s" % (q, n, "only after every operation that can fail; afterwards only the write of bytes computed earlier" if ok else "BEFORE operations that can still fail (a failure there leaves a truncated or partially signed file): " + "; ".join("%s at %s" % (show_ev(ev), ev[1].loc()) for ev in offenders)),
-                ok,
-            )
+            if key == "written-after-failure":
+                text = "%s: on %d failing path(s) the target is still written after the operation failed (%s): the file does not stay byte-identical" % (q, n, "; ".join("%s at %s" % (show_ev(ev), ev[1].loc()) for ev in offenders))
+            else:
+                text = "%s: on %d path(s) the target is opened for writing %s" % (q, n, "only after every operation that can fail; afterwards only the write of bytes computed earlier" if ok else "BEFORE operations that can still fail (a failure there leaves a truncated or partially signed file): " + "; ".join("%s at %s" % (show_ev(ev), ev[1].loc()) for ev in offenders))
+            ctx.ob("R1", "write-phase|%s|%s" % (q, key), osite.loc(), text, ok)
         if n_writing == 0:
             ctx.ob("R1", "never-writes|%s" % q, site.loc(), "%s has no path that writes its output" % q, False)
         ctx.ob("R2", "no-write-in-loop|%s" % q, site.loc() if not loops_bad else loops_bad[0].loc(), "%s %s" % (q, "never opens or rewrites the target inside a loop" if not loops_bad else "opens/rewrites the target inside a loop (partially signed output can be left behind)"), not loops_bad)
@@ -160,15 +174,16 @@ def run(ctx):
     n = bad = 0
     early = 0
     for p in sm.paths:
-        calls = [ev for ev in p.events if ev[0] == "call" and ev[2] == "repo:signing.sign_all_in_repodata"]
+        pev = flat(p)
+        calls = [ev for ev in pev if ev[0] == "call" and ev[2] == "repo:signing.sign_all_in_repodata"]
         for ev in calls:
             n += 1
             st = State(facts=p.facts)
             key = ev[3][1] if len(ev[3]) > 1 else None
             if key is None or not hexconj(st, key, 64):
                 bad += 1
-            idx = list(p.events).index(ev)
-            for e2 in list(p.events)[:idx]:
+            idx = pev.index(ev)
+            for e2 in pev[:idx]:
                 if e2[0] == "call" and e2[2] == "builtin:open" and e2[3] and e2[3][0] == ev[3][0] and write_mode(open_mode(e2)):
                     early += 1
     ctx.ob("R4", "cli-key-gate", site.loc(), "cli_sign_artifacts calls the signer %s" % ("only with a key that passed the 64-hex gate, and does not open the repodata file itself" if bad == 0 and early == 0 and n else "without the hex-key gate dominating the call, or after opening the target itself"), bad == 0 and early == 0 and n > 0)
@@ -179,4 +194,6 @@ def show_ev(ev):
         return "%s(%s)%s" % (ev[2].split(":", 1)[-1], ", ".join(show(a)[:30] for a in ev[3][:2]), "" if ev[5][0] == "ok" else " [may raise %s]" % ev[5][1])
     if ev[0] == "store":
         return "store %s" % show(ev[2])[:60]
+    if ev[0] == "raise":
+        return "raise %s" % ev[2]
     return ev[0]
